@@ -160,13 +160,14 @@ def client_cases(rng, n, lossy=True):
     None / b"", every digest x cipher x key type, optionally with lost discovery probes); yields
     (key, script, outcome, judge-reason-or-None)"""
     for k in range(n):
-        auth = [0, 1, 2][k % 3]
+        # (independent draws: every digest x cipher x mode x discovery x loss pattern combination can occur)
+        auth = rng.choice([0, 1, 1, 2, 2])
         priv = rng.choice([0, 1, 2]) if auth else 0
-        discover = k % 2 == 0
+        discover = rng.random() < 0.6
         peer = sessions.rand_v3_peer(rng, auth=auth, priv=priv)
-        mode = "sync" if (k // 2) % 2 == 0 else "async"
+        mode = "sync" if k % 2 == 0 else "async"
         oids = [o for o in (sessions.rand_oid_text(rng) for _ in range(rng.randrange(1, 4))) if o.count(".") >= 1] or ["1.3.6.1"]
-        drop = () if (k % 3 or not lossy) else rng.choice([(0,), (1,), (0, 1), (0, 2)])
+        drop = rng.choice([(0,), (1,), (0, 1), (0, 2)]) if (lossy and rng.random() < 0.4) else ()
         script, r, results = (run_sync_client if mode == "sync" else run_async_client)(rng, peer, discover, oids, drop)
         key = f"{mode}:{peer.label}:{'discovered' if discover else 'configured'}" + (f":lost{list(drop)}" if drop else "")
         why = None
@@ -243,15 +244,16 @@ def run(chk, model_ok=True):
     # 1. the real sync and async clients
     n_cli = 90 if quick else 2700
     for k in range(n_cli):
-        auth = [0, 1, 2][k % 3]
+        # independent draws, so that every digest x cipher x mode x discovery x loss-pattern combination can occur
+        auth = rng.choice([0, 1, 1, 2, 2])
         priv = rng.choice([0, 1, 2]) if auth else 0
-        discover = k % 2 == 0
+        discover = rng.random() < 0.55
         peer = sessions.rand_v3_peer(rng, auth=auth, priv=priv)
-        mode = "sync" if (k // 6) % 2 == 0 else "async"
+        mode = "sync" if k % 2 == 0 else "async"
         oids = [sessions.rand_oid_text(rng) or "1.3.6" for _ in range(rng.randrange(1, 5))]
         oids = [o for o in oids if o.count(".") >= 1] or ["1.3.6.1"]
         # the network may lose the first probes (and the client retries refresh())
-        drop = () if k % 3 else rng.choice([(0,), (1,), (0, 1), (0, 2)])
+        drop = rng.choice([(0,), (1,), (0, 1), (0, 2)]) if rng.random() < 0.35 else ()
         script, r, results = (run_sync_client if mode == "sync" else run_async_client)(rng, peer, discover, oids, drop)
         key = f"{mode}:{peer.label}:{'discovered' if discover else 'configured'}" + (f":lost{list(drop)}" if drop else "")
         hist[key] = hist.get(key, 0) + 1
